@@ -935,7 +935,7 @@ def run(ctx):
     rng = C.rng_for(ctx["seed"], "c09")
     n = C.Budget(ctx["tier"], 3000, 60000).n
     if ctx["widened"]:
-        n *= 4
+        n *= 2  # (was 4: a widened quick run exceeded the 120 s cap on a loaded box)
     res.rule = ("scenarios = (service: instance/type/addresses/TTLs) x (renaming allowed?) x cache pre-populated with chains of taken names, some expiring at a probe "
                 "instant x conflict/unrelated/other-spelling PTR responses injected at offsets around the probe instants (or a real peer defending the name with "
                 "scripted one-way delays 0..176 ms) ; non-trivial = distinct (kind, outcome, number of blocks, renamed?, block times) with a conflict, rename, early wake or failure")
